@@ -1,4 +1,5 @@
 """C03 - concurrent requests for one client behave as if executed one at a time."""
+from rules import http as H
 from rules import shared as S
 from tcss import world as WD
 
@@ -25,3 +26,7 @@ def run(rep, W, ctx):
     S.c03_nostate(rep, W)
     S.c03_loop(rep, W)
     S.s_wmc(rep, W)
+    # "two overlapping AddVersion requests are never both accepted on the same parent": exclusion (above) makes them run one
+    # after the other; that the second is then rejected is the compare-and-append guard evaluated inside the transaction
+    S.s_cas(rep, W)
+    H.c03_noawait(rep, W)
